@@ -523,12 +523,12 @@ theorem C03_pretag_overrides_table_version (c : VroCfg) (a : VroArgs) (d : Defau
     · simp only [List.mem_cons, List.not_mem_nil, or_false] at h
       rcases h with rfl | rfl | rfl
       · have : (0 < r.depth) = True := by simp [hdepth]
-        simp [lookupEntry, show hasInfix kKeep kPath = false by decide, hdepth, hr]
-      · simp [lookupEntry, show hasInfix kTypeExact kPath = false by decide,
+        simp [lookupEntry, show (kKeep == kPath) = false by decide, hdepth, hr]
+      · simp [lookupEntry, show (kTypeExact == kPath) = false by decide,
           show (kTypeExact == kKeep) = false by decide, show (kTypeExact == kCommandLine) = false by decide,
           show isVT kTypeExact = false by decide, show isWarn kTypeExact = false by decide,
           show colon ∈ kTypeExact by decide, show isType kTypeExact = true by decide]
-      · simp [lookupEntry, show hasInfix kCommandLine kPath = false by decide,
+      · simp [lookupEntry, show (kCommandLine == kPath) = false by decide,
           show (kCommandLine == kKeep) = false by decide, hr]
     · have hne : e ≠ x := fun hc => hxA (hc ▸ heA)
       rw [lookupEntry_plainTag _ (hplain e h), hothers e h hne]
